@@ -1,6 +1,6 @@
 (* C13/Corr.v — correspondence runner. *)
 From Coq Require Import String List Bool Arith NArith.
-From Verif Require Import Base.Str Base.Run C13.Model C13.Builders C13.Lex C13.Extra C13.Farg.
+From Verif Require Import Base.Str Base.Run C13.Model C13.Builders C13.Lex C13.Extra C13.Farg C13.Release.
 From VerifGen Require Import C13Tables.
 Import ListNotations.
 Open Scope string_scope.
@@ -17,6 +17,11 @@ Record case := mk {
   c_xb : xinfo;             (* the same for the builders of Extra.v (argument-level models), or XBNone *)
   c_fa : option fa_args;    (* create_authn_response / create_attribute_response / setup_assertion: the farg argument
                                tree with what update_farg completes it from (Farg.v), or None *)
+  c_enc : option enc_args;  (* create_authn_response / create_authn_request_response / create_attribute_response: the
+                               encryption arguments, the relevant configuration and whether the service provider's
+                               metadata has an encryption certificate (Release.v part 1), or None *)
+  c_ept : option (ept_args * bool);   (* the identity holds eduPersonTargetedID and the converter in force maps it to the
+                               oid: the value as the caller wrote it (Release.v part 2) and whether the policy releases it *)
   c_tree : option tree;     (* the emitted document (None: the call raised, nothing was emitted) *)
   c_xsd : bool;             (* saml2.xml.schema.validate accepts *)
   c_xsd_ext : bool;         (* the shipped XSDs incl. the extension schemas accept *)
@@ -82,8 +87,15 @@ Definition farg_agrees (c : case) : bool :=
       end
   end.
 
+(* which assertion sits in an EncryptedAssertion, encrypted or not, is what Release.enc_plan says for the arguments;
+   the eduPersonTargetedID Attribute is the one Release.ept_attribute builds from the identity's value; the models
+   raise exactly when the call raised *)
+Definition release_agrees (c : case) : bool :=
+  match c_enc c with Some a => enc_agrees a (c_tree c) | None => true end
+  && match c_ept c with Some (a, released) => ept_agrees a released (c_tree c) | None => true end.
+
 Definition agrees (c : case) : bool :=
-  lex_agrees c && farg_agrees c &&
+  lex_agrees c && farg_agrees c && release_agrees c &&
   match c_tree c with None => shape_agrees c | Some _ =>
   match c_mut c with
   | O => Bool.eqb (struct_ok c) (oracle_ok c) && shape_agrees c
@@ -193,4 +205,6 @@ Definition explain (c : case) :=
    | Some t => (valid_doc live_table t, ids_unique live_table live_ids t, xsi_ok t, choices_ok live_table choice_rules t)
    | None => (true, true, true, true)
    end,
-   (farg_agrees c, match c_fa c with Some a => subject_tree a | None => None end)).
+   (farg_agrees c, match c_fa c with Some a => subject_tree a | None => None end),
+   (release_agrees c, match c_enc c with Some a => Some (enc_plan a) | None => None end,
+    match c_ept c with Some (a, _) => ept_tree a | None => None end)).
